@@ -209,8 +209,22 @@ def gen_compare(ctx, r, auto=False):
     def sym(s):
         return ("N%d" % ni[s]) if s in ni else ("T%d" % ti[s])
     path = os.path.join(r.dir, "gen.in")
+    want = gen_input_text(d, r.g)
     with open(path, "w") as f:
-        f.write(gen_input_text(d, r.g))
+        f.write(want)
+    # Front/SynAst.v: the same input computed by the MODEL of the front end (scanner, definitions, symbol table, terminal numbering,
+    # look-ahead order, which alternatives carry an action) from the BYTES of the grammar file — with it the model generator is
+    # compared with gocc from the file to the tables, nothing but the file taken from gocc
+    src = os.path.join(r.dir, "g.bnf")
+    if os.path.exists(src):
+        sa = subprocess.run([ctx.modelrun, "synast", src], capture_output=True, text=True, timeout=120).stdout
+        r.synast_checked = True
+        if sa.strip() != want.strip():
+            wl, gl = want.strip().split("\n"), sa.strip().split("\n")
+            k = next((i for i in range(min(len(wl), len(gl))) if wl[i] != gl[i]), min(len(wl), len(gl)))
+            names = ["nn ntm terr", "productions", "symbol order", "look-ahead order", "p_acts"]
+            return "front-end model (Front/SynAst.v on the file's bytes) and gocc's symbol table differ in %s: model %r, gocc %r" % (
+                names[k] if k < len(names) else "length", (gl[k] if k < len(gl) else "")[:200], (wl[k] if k < len(wl) else "")[:200])
     p = subprocess.run([ctx.modelrun, "genauto" if auto else "gen", path], capture_output=True, text=True, timeout=600)
     lines = p.stdout.split("\n")
     if lines and lines[0].startswith("EXIT "):
